@@ -281,30 +281,30 @@ func (c *lcCtrl) WatchAccountConf(k *btcec.PublicKey, h chainhash.Hash,
 	script []byte, numConfs, hint uint32) error {
 
 	c.env.curKey = c.env.acctID(k)
-	c.env.r.Count("ctrl/WatchAccountConf")
+	c.env.count("ctrl/WatchAccountConf")
 	return c.real.WatchAccountConf(k, h, script, numConfs, hint)
 }
 func (c *lcCtrl) CancelAccountConf(k *btcec.PublicKey) {
-	c.env.r.Count("ctrl/CancelAccountConf")
+	c.env.count("ctrl/CancelAccountConf")
 	c.real.CancelAccountConf(k)
 }
 func (c *lcCtrl) WatchAccountSpend(k *btcec.PublicKey, op wire.OutPoint,
 	script []byte, hint uint32) error {
 
 	c.env.curKey = c.env.acctID(k)
-	c.env.r.Count("ctrl/WatchAccountSpend")
+	c.env.count("ctrl/WatchAccountSpend")
 	return c.real.WatchAccountSpend(k, op, script, hint)
 }
 func (c *lcCtrl) CancelAccountSpend(k *btcec.PublicKey) {
-	c.env.r.Count("ctrl/CancelAccountSpend")
+	c.env.count("ctrl/CancelAccountSpend")
 	c.real.CancelAccountSpend(k)
 }
 func (c *lcCtrl) WatchAccountExpiration(k *btcec.PublicKey, expiry uint32) {
-	c.env.r.Count("ctrl/WatchAccountExpiration")
+	c.env.count("ctrl/WatchAccountExpiration")
 	if expiry <= c.env.watcherBest {
 		// the expiry watcher hands this off to HandleAccountExpiry in
 		// a goroutine: the op is only complete once it has returned
-		c.env.r.Count("ctrl/WatchAccountExpiration/immediate")
+		c.env.count("ctrl/WatchAccountExpiration/immediate")
 		atomic.AddInt64(&c.env.asyncExpected, 1)
 	}
 	c.real.WatchAccountExpiration(k, expiry)
@@ -471,7 +471,7 @@ func (w *lcWallet) FundPsbt(_ context.Context, req *walletrpc.FundPsbtRequest) (
 		PartialSigs: []*psbt.PartialSig{{Signature: []byte{1, 2, 3}}},
 	}
 	w.fundSeq++
-	switch w.fundSeq % 4 {
+	switch w.env.r.Rng.Intn(4) {
 	case 0, 2:
 		// lnd's coin selection picked a nested P2WKH UTXO: the input carries a redeem
 		// script, whose push becomes the signature script (and part of the txid)
@@ -764,6 +764,13 @@ func (e *lcEnv) close() {
 	}
 	e.db.Close()
 	os.RemoveAll(e.dir)
+}
+
+// count is Run.Count for code that may run in two handler goroutines at once.
+func (e *lcEnv) count(bucket string) {
+	e.logMu.Lock()
+	e.r.Count(bucket)
+	e.logMu.Unlock()
 }
 
 func (e *lcEnv) addEvent(ev lcEvent) {
